@@ -54,6 +54,15 @@ CHECKS.update({
    text="Seeded stream scenarios: every Request/Response variant with generated field values (empty, non-ASCII, multi-megabyte strings, result sets 0..400 rows x 0..8 columns) must be received exactly as sent under fragmentation, short writes and EINTR with nothing left over in the stream; truncated, random, oversize-prefixed and mutated frames must yield a protocol error (or a well-formed message), never a panic, hang or unbounded allocation."),
 })
 
+CHECKS.update({
+ "C13": dict(engine="E1-sqlsim", level="exploration", ref="4 (C13), 2.3 (E1)",
+   technique="deterministic simulation: seeded histories with VACUUM at arbitrary points (any number of times, with or without reopen), table contents compared with the reference model immediately before and after every VACUUM and at every later read",
+   text="Seeded histories of committed and rolled-back inserts and deletes with VACUUM at arbitrary points; the state read by a fresh transaction just before and just after each VACUUM must equal the model, later sessions read correctly and the database stays usable. With the open findings D14/D29/V1 the explored region is single-table worlds without UPDATE in which no delete was rolled back; most VACUUMs in it do free bytes (counted)."),
+ "C15": dict(engine="E1-sqlsim", level="exploration", ref="4 (C15), 2.3 (E1)",
+   technique="deterministic simulation: seeded DDL-heavy histories (CREATE TABLE / CREATE UNIQUE INDEX / DROP TABLE inside committed and rolled-back transactions, name reuse, reopen) with name resolution and table shapes compared against a versioned-catalog reference model",
+   text="Seeded histories interleaving CREATE TABLE, CREATE UNIQUE INDEX and DROP TABLE with DML on the same and other tables, in autocommit, in committed and in rolled-back transactions, with reuse of dropped names and reopen; every later statement must resolve names exactly as the model's versioned catalog does and other tables stay unchanged. ALTER TABLE is covered only by the reproducers of open findings D16/D17."),
+})
+
 NOT_APPLICABLE = {
  "C05": "pure function of (table contents, query text): no schedule, crash point, clock or interleaving enters it; needs differential/property-based testing, not simulation",
  "C18": "pure function of (stored bytes, schema, snapshot, horizon); the property asks for bounded exhaustive enumeration of a codec, not simulation",
